@@ -12,7 +12,8 @@ PROPERTY = "C12"
 LEVEL = "exploration"
 RULE = ("two-run (hyper-property) monitor: for a generated case A (all three estimators) a canonical digest of every "
         "returned table (column names/order, dtypes, value bytes) is compared across histories: fresh client twice; "
-        "same client twice; A, B, A on one client with B differing in estimator/estimands/aggregates/seed; national "
+        "same client twice; A, B, A on one client with B differing in estimator/estimands/aggregates/seed; twice with the "
+        "caller's own argument objects reused (no copies); national "
         "summary after each bootstrap run; and, for a subset, fresh processes with PYTHONHASHSEED 1 and 12345 against "
         "the in-process run (hash seed 0). A different seed setting must be able to change the output (counted). "
         "Non-trivial: completed case with nonreporting units; distinct = (estimator, histories exercised, office "
@@ -136,6 +137,32 @@ def run_case(spec, inputs=None):
         V(f"after-other-run/{bmode}", diff_tables(d1, d5 or {}), extra=dict(b_raised=repr(excb)))
     hist.append("A-B-A:" + bmode)
     out["counters"]["runs"] = 6
+    # the caller reuses its own argument objects (one settings dict, one config, one feed frame) for two calls, on
+    # two fresh clients: nothing a run leaves behind in those objects may change the next run
+    objs = harness.shared_objects(el, feed, call)
+    snap = (gen.dumps(objs["model_parameters"]), gen.dumps(objs["estimands"]), gen.dumps(objs["aggregates"]),
+            gen.dumps(objs["prediction_intervals"]), gen.dumps(objs["features"]), gen.dumps(objs["fixed_effects"]),
+            objs["feed"].to_csv(), objs["pre"].to_csv())
+    ds = []
+    with harness.patched() as p:
+        if est == "gaussian":
+            harness.fast_boot_sigma(p)
+        for rep_ in range(2):
+            rs, es = harness.run_estimates_shared(el, feed, call, cm.ModelClient(), objs)
+            ds.append(None if es is not None else {k: v for k, v in harness.results_digest(rs).items()})
+    d1_tables = {k: v for k, v in d1.items() if k not in ("nat_sum_data", "_nat_sum_values")}
+    if ds[0] is None or ds[1] is None or diff_tables(d1_tables, ds[0]) or diff_tables(d1_tables, ds[1]):
+        now = (gen.dumps(objs["model_parameters"]), gen.dumps(objs["estimands"]), gen.dumps(objs["aggregates"]),
+               gen.dumps(objs["prediction_intervals"]), gen.dumps(objs["features"]), gen.dumps(objs["fixed_effects"]),
+               objs["feed"].to_csv(), objs["pre"].to_csv())
+        mutated = [n for n, a, b in zip(("model_parameters", "estimands", "aggregates", "prediction_intervals",
+                                         "features", "fixed_effects", "feed", "preprocessed"), snap, now) if a != b]
+        which = "first" if (ds[0] is None or diff_tables(d1_tables, ds[0])) else "second"
+        V(f"shared-argument-objects/{which}-call", sorted(set(diff_tables(d1_tables, ds[0] or {})) |
+                                                           set(diff_tables(d1_tables, ds[1] or {}))),
+          extra=dict(arguments_changed_by_the_run=mutated))
+    hist.append("shared-argument-objects")
+    out["counters"]["runs"] = 8
     # (vi) the seed is wired: another seed can change the output
     scall = copy.deepcopy(call)
     scall["model_parameters"]["seed"] = int(call["model_parameters"].get("seed", 0)) + 17
